@@ -264,11 +264,17 @@ func rabRun(x *hx.Ctx, h hist) {
 			j.Signature, _ = schnorr.Sign(s, dk, j.Hash(s))
 			valid = false
 		}
+		goodJ := justs[i]
 		for to := 0; to < n; to++ {
 			if !hasDeal[to] || !views[to].present[i] {
 				continue
 			}
 			err := vs[to].ProcessJustification(j)
+			if !valid && h.justThenGood && sidClass[to] == "dealt" {
+				// the dealer follows its invalid justification with the correct one: the dealer stays bad for good
+				_ = vs[to].ProcessJustification(goodJ)
+				x.Outcome(fmt.Sprintf("correct justification after an invalid one delivered to %d", to), true)
+			}
 			if sidClass[to] != "dealt" {
 				// this verifier was itself dealt other commitments / another T by the (malicious) dealer:
 				// what it makes of justifications for the dealt session is recorded, not prescribed
